@@ -150,6 +150,20 @@ func runEntry(ep string, ro readOpts, in []byte, seq int) string {
 	panic(ep)
 }
 
+func uvarintAt(b []byte, p int) (uint64, int) {
+	var x uint64
+	var s uint
+	for i := 0; p+i < len(b) && i < 10; i++ {
+		c := b[p+i]
+		if c < 0x80 {
+			return x | uint64(c)<<s, i + 1
+		}
+		x |= uint64(c&0x7f) << s
+		s += 7
+	}
+	return 0, -1
+}
+
 // structural mutations aimed at the numbers parsers trust: length prefixes, header fields,
 // index counts / widths / lengths.
 func (g *Gen) c09Mutate(arch []byte, ver int) []byte {
@@ -209,6 +223,44 @@ func famC09(g *Gen, o *Out, n int, thorough bool) {
 		inputs := [][]byte{arch}
 		for i := 0; i < 8; i++ {
 			inputs = append(inputs, g.c09Mutate(arch, ver))
+		}
+		// structure-aware: every section's (and the header's) length prefix replaced by an extreme varint,
+		// including ones that make "length - cidLength" negative and point back at a section start
+		{
+			base := 0
+			if ver == 2 {
+				base = int(leU64(arch[27:35]))
+			}
+			starts := []int{base}
+			p := base
+			if hl, n := uvarintAt(arch, p); n > 0 {
+				p += n + int(hl)
+				for _, b := range bs {
+					starts = append(starts, p)
+					p += len(sectionOf(b))
+				}
+			}
+			for _, st := range starts {
+				if !thorough && g.pick(2) == 0 {
+					continue
+				}
+				_, n := uvarintAt(arch, st)
+				if n <= 0 {
+					continue
+				}
+				vals := []uint64{1 << 63, ^uint64(0), ^uint64(0) - 9, 1<<63 - 1, 1 << 62, 0}
+				// a length whose int64 value, minus a 36-byte CID, rewinds exactly onto this section
+				neg := func(k int) uint64 { return ^uint64(k) + 1 }
+				vals = append(vals, neg(10), neg(n), neg(n+1), neg(36))
+				v := vals[g.pick(len(vals))]
+				enc := make([]byte, 0, 10)
+				for v >= 0x80 {
+					enc = append(enc, byte(v)|0x80)
+					v >>= 7
+				}
+				enc = append(enc, byte(v))
+				inputs = append(inputs, append(append(append([]byte{}, arch[:st]...), enc...), arch[st+n:]...))
+			}
 		}
 		for _, in := range inputs {
 			ro := defaultReadOpts()
